@@ -27,7 +27,10 @@ std::string join_quoted(const std::vector<std::string>& strs, char sep,
         if (i != 0)
             out += sep;
 
-        if (strs[i].find(sep) != std::string::npos)
+        // quote fields that split_quoted() would otherwise drop (empty),
+        // split (separator) or misread (leading quote)
+        if (strs[i].empty() || strs[i][0] == quote ||
+            strs[i].find(sep) != std::string::npos)
         {
             out += quote;
             for (std::string::const_iterator it = strs[i].begin();
